@@ -628,7 +628,9 @@ struct mcount_jmpbuf_rstack {
 	unsigned long addr;
 	int count;
 	int record_idx;
-	struct mcount_ret_stack rstack[MCOUNT_RSTACK_MAX];
+	/* grows with the shadow stack: --max-stack can exceed MCOUNT_RSTACK_MAX */
+	int alloc;
+	struct mcount_ret_stack *rstack;
 };
 
 static LIST_HEAD(jmpbuf_list);
@@ -645,11 +647,18 @@ static void setup_jmpbuf_rstack(struct mcount_thread_data *mtdp, unsigned long a
 	if (list_no_entry(jbstack, &jmpbuf_list, list)) {
 		jbstack = xmalloc(sizeof(*jbstack));
 		jbstack->addr = addr;
+		jbstack->alloc = 0;
+		jbstack->rstack = NULL;
 
 		list_add(&jbstack->list, &jmpbuf_list);
 	}
 
 	pr_dbg2("setup jmpbuf rstack at %lx (%d entries)\n", addr, mtdp->idx);
+
+	if (jbstack->alloc < mtdp->idx) {
+		jbstack->rstack = xrealloc(jbstack->rstack, mtdp->idx * sizeof(*jbstack->rstack));
+		jbstack->alloc = mtdp->idx;
+	}
 
 	/* currently, only saves a single jmpbuf */
 	jbstack->count = mtdp->idx;
